@@ -15,6 +15,15 @@ func main() {
 		os.Exit(2)
 	}
 	switch os.Args[1] {
+	case "check":
+		tier := os.Getenv("VERIF_TIER")
+		if len(os.Args) > 3 {
+			tier = os.Args[3]
+		}
+		if tier == "" {
+			tier = "quick"
+		}
+		os.Exit(runCheck(os.Args[2], tier))
 	case "run":
 		repo := os.Getenv("VERIF_REPO")
 		if repo == "" {
